@@ -25,3 +25,47 @@ package apk
 //
 //@ inline func combineToApk(target io.Writer, readers ...io.Reader) (err error)
 //@   loop 0 unroll 4
+//
+//@ import "strings"
+//
+//@ spec func opt(sep, s string) string {
+//@     if s == "" { return "" }
+//@     return sep + s
+//@ }
+//
+//@ spec func withPrefix(p, s string) string {
+//@     if s == "" || strings.HasPrefix(s, p) { return s }
+//@     return p + s
+//@ }
+//
+//@ spec func apkMeta(m string) string {
+//@     if m == "" || strings.HasPrefix(m, "p") || strings.HasPrefix(m, "cvs") || strings.HasPrefix(m, "svn") || strings.HasPrefix(m, "git") || strings.HasPrefix(m, "hg") { return m }
+//@     return "p" + m
+//@ }
+//
+//@ spec func apkVersion(version, prerelease, metadata, release string) string {
+//@     return version + opt("_", prerelease) + opt("-", withPrefix("r", release)) + opt("-", apkMeta(metadata))
+//@ }
+//
+//@ spec func archOf(arch, override string) string {
+//@     if override != "" { return override }
+//@     return docArch(arch)
+//@ }
+//
+//@ func ensureValidArch(info *nfpm.Info) (result *nfpm.Info)
+//@   requires info != nil
+//@   ensures [C02 C15] documented-table-or-override: info.Arch == archOf(old(info.Arch), old(info.APK.Arch))
+//@   ensures [C11 C15] idempotent: implies(old(info.APK.Arch) == "", docArch(info.Arch) == info.Arch)
+//@   ensures [C11] same-object: result == info
+//@   modifies [C11 C12] &info.Arch
+//
+//@ func pkgver(info *nfpm.Info) (result string)
+//@   requires info != nil
+//@   ensures [C02 C14 C15] shape: result == apkVersion(old(info.Version), old(info.Prerelease), old(info.VersionMetadata), old(info.Release))
+//@   modifies [C11 C12]
+//
+//@ func (a *Apk) ConventionalFileName(info *nfpm.Info) (result string)
+//@   requires info != nil
+//@   ensures [C15 C14 C02] name: result == old(info.Name) + "_" + apkVersion(old(info.Version), old(info.Prerelease), old(info.VersionMetadata), old(info.Release)) + "_" + archOf(old(info.Arch), old(info.APK.Arch)) + ".apk"
+//@   ensures [C15] extension: strings.HasSuffix(result, a.ConventionalExtension())
+//@   modifies [C11 C12] &info.Arch
